@@ -768,6 +768,7 @@ SKIP_CLAUSES = {
     "p0.startswith('__MACOSX/')": "macOS resource fork",
     "not _is_supported_file_cached(p1)": "unsupported type",
     "any((v0.endswith(v1) for v1 in NESTED_ARCHIVE_EXTENSIONS))": "nested archive (v0 = lower-cased base name)",
+    "_get_file_extractor_cached(p1) is read_archive": "nested archive (whatever the router sends back to the archive reader)",
 }
 
 
